@@ -84,7 +84,21 @@ def materialise(d, cfg, pname, seed, dtype=torch.float64, train=False):
         torch.manual_seed(2000 + seed)
         obj = d.build(cfg)
     if isinstance(obj, nn.Module):
-        fill(obj, C.pattern_for(pname, seed))
+        pat = C.pattern_for(pname, seed)
+        fill(obj, pat)
+        if pat[0] == "pat":
+            # moderate magnitudes: damp the last layer of every conditioner (O(1) weights in every layer give scales of
+            # 1e-3 .. 1e3 per flow layer, i.e. condition numbers beyond float32)
+            with torch.no_grad():
+                for mod in obj.modules():
+                    net = getattr(mod, "autoregressive_net", None) or getattr(mod, "transform_net", None)
+                    last = getattr(net, "final_layer", None) if net is not None else None
+                    if last is None and isinstance(mod, D.MADEMoG):
+                        last = mod._made.final_layer
+                    if last is not None:
+                        last.weight.mul_(0.25)
+                        if last.bias is not None:
+                            last.bias.mul_(0.25)
         if d._post:
             d._post(obj, cfg)
         if dtype == torch.float64:
